@@ -19,12 +19,12 @@ const (
 
 // receiver states
 const (
-	stZero  = iota // zero value
-	stReset        // used before with a larger size and garbage, then Reset()
-	stSized        // exact size, compact, NaN garbage contents
-	stView         // exact size, view with stride > cols into a sentinel-filled parent, NaN garbage in the window
-	stWrong        // sized with the wrong shape: the call must panic and leave it unchanged
-	stRowView      // VecDense only: unit-increment view (a RowView) inside a sentinel parent, NaN garbage in the window
+	stZero    = iota // zero value
+	stReset          // used before with a larger size and garbage, then Reset()
+	stSized          // exact size, compact, NaN garbage contents
+	stView           // exact size, view with stride > cols into a sentinel-filled parent, NaN garbage in the window
+	stWrong          // sized with the wrong shape: the call must panic and leave it unchanged
+	stRowView        // VecDense only: unit-increment view (a RowView) inside a sentinel parent, NaN garbage in the window
 	nStates
 )
 
